@@ -49,6 +49,8 @@ Verdict(e) ==
   IN IF ~(SplitExact(a0, e.v, e.pn, e.pd) /\ SplitExact(a1, e.v2, e.p2n, e.p2d)) THEN R("GenExact", "weights")
      ELSE IF e.split1.A # a1.A \/ e.split1.w # a1.w THEN R("SplitDef", "splitted_copy")
      ELSE IF e.split2.A # a2.A \/ e.split2.w # a2.w THEN R("SplitDef", "splitted_copy(second)")
+     \* the twins' weights add up to v's weight: to double precision (10^-6 relative to the weight scale / 10^3)
+     ELSE IF e.split1.werr > 1000 \/ e.split2.werr > 1000 THEN R("SplitDef", "splitted_copy(weight precision)")
      ELSE IF OneSided(o0, o1) # {} THEN R("OneSidedException", JoinSet(OneSided(o0, o1)))
      ELSE IF OneSided(o1, o2) # {} THEN R("OneSidedException", JoinSet(OneSided(o1, o2)))
      \* (the n.s.i. cross / internal measures are defined for undirected networks)
